@@ -46,6 +46,10 @@ CLAIMED = {
         technique="exhaustive enumeration of record histories through the real update_snapshot on the real application state; reference table and projection (solo replay) equality",
         text="Bounded exhaustive history exploration on the real code: all histories up to depth 3 (thorough 4) over 3 aircraft x 33 message kinds (every DF arm and every ADS-B / Comm-B arm of update_snapshot, DF19/DF24 without address), depth 4 (thorough 5) over 12 core kinds and an equal-timestamp variant, with aircraft symmetry reduction; each history is replayed on a fresh Jet1090 through the real snapshot::update_snapshot (tokio mutex, real decoder output). Oracles per history: key set = addresses shown in the records' JSON, count / firstseen / lastseen per aircraft, every held value occurs in one of that aircraft's own records (values are unique per aircraft and step), and the entry equals the entry obtained by replaying that aircraft's records alone.",
         note="Trusted: aircraft interchangeability (the table code never branches on the address value); positions on BDS 0,5/0,6 records are attached by the harness as decode_position does; store_history and expiry are outside this check."),
+    "C15": dict(engine=E1, design="4/C15",
+        technique="exhaustive enumeration of packet shapes and of every code of every field, packets built and XXTEA-encrypted by an independent implementation, through the real Flarm::from_record",
+        text="Bounded exhaustive enumeration on the real Flarm::from_record. Totality: lengths 0..=40 x all 256 magic bytes x 3 fills x 7 timestamps x 10 references (NaN, infinities, 1e300, f64::MAX, values around the i32 saturation point), plus well-formed packets against the same references (2.2 M calls): no panic, every decoded number finite, track in [0,360). Inversion: an independent key schedule + XXTEA encryptor + packet builder produces packets for all 16 types x flags x address kinds, all 8192 altitudes, all 4096 GPS codes, six 65536-address windows, 8189 timestamps on both sides of every change of time bit 23 and bit 6, and every one of the 2^19 latitude and 2^20 longitude codes inside the window of 3 (thorough 12) references; the decoded address, type, flags, altitude must be equal and the position within one quantisation step. Track range: 32^4 boundary tuples of (ns0,ew0,ns1,ew1) (thorough: all 65536 (ns0,ew0) x 1024 boundary (ns1,ew1) and the converse, 1.3e8 packets).",
+        note="Trusted: the reverse-engineered key tables and scrambling constants are necessarily shared with the code; two trailing CRC bytes are required by the decoder but not interpreted; vertical speed / ground speed values are only checked for finiteness (not in the property's inversion list); positions across the antimeridian are outside the format's window arithmetic."),
     "C16": dict(engine=E2, design="4/C16",
         technique="exhaustive enumeration of a specification grammar and of all short strings through the real parsers; serial equality across forms and processes",
         text="Bounded exhaustive enumeration through the real Source::from_str / Position::from_str / Source::serial: the product scheme x host x port x path x separator x reference (49k strings quick, 115k thorough), every string up to length 4 (thorough 5) over a 12-symbol alphabet of URL/regex metacharacters, every well-formed endpoint (4 schemes x 6 hosts x 6 ports x paths x 9 references) compared with the expected endpoint, reference position and with the serial of each documented TOML table form, every airport ICAO (thorough: and IATA) code of airports.json, and the digest of all serials recomputed in two further processes. Totality is judged by catch_unwind with the panic site recorded.",
